@@ -15,6 +15,9 @@ import (
 
 	"verif/kit"
 	"verif/schedx"
+
+	"github.com/mycoria/mycoria/config"
+	"github.com/mycoria/mycoria/m"
 )
 
 func reachJudge(rw *schedx.ReconnectWorld, ex *schedx.Exec) {
@@ -85,8 +88,74 @@ func cleanerConc(t *testing.T, bubble bool) schedx.Conc {
 	return c
 }
 
+// relayConc: a relay handles the announcements of two different origins at the
+// same time (one frame handler each); both must be flooded on and accepted.
+func relayConc(t *testing.T, bubble bool) schedx.Conc {
+	build := func() *schedx.Instance {
+		w := kit.NewWorld()
+		mk := func(name string, i int) *kit.Node {
+			n, err := w.AddNode(name, pool[i], config.Store{})
+			if err != nil {
+				panic(err)
+			}
+			return n
+		}
+		r, d1, d2, x, y := mk("R", 0), mk("D1", 1), mk("D2", 2), mk("X", 3), mk("Y", 4)
+		for i, n := range []*kit.Node{d1, d2, x} {
+			if _, _, err := w.Connect(r, n, m.SwitchLabel(11+i), m.SwitchLabel(21+i), 5); err != nil {
+				panic(err)
+			}
+		}
+		if _, _, err := w.Connect(x, y, 31, 32, 5); err != nil {
+			panic(err)
+		}
+		_ = d1.Router().AnnouncePing.Send(r.Identity().IP)
+		_ = d2.Router().AnnouncePing.Send(r.Identity().IP)
+		held := append([]*kit.Flight(nil), w.InFlight...)
+		w.InFlight = nil
+		if len(held) != 2 {
+			panic("harness: expected two announcements in flight")
+		}
+		in := &schedx.Instance{}
+		for _, fl := range held {
+			fl := fl
+			in.Threads = append(in.Threads, []schedx.Op{{Name: "relay handles announcement of " + fl.From.Name, Do: func() { w.Inject(fl.From, fl.To, fl.Bytes) }}})
+		}
+		in.Observe = func() string {
+			w.Run(kit.FIFO, 500)
+			return kit.TableKey(r) + "\n" + kit.TableKey(x) + "\n" + kit.TableKey(y)
+		}
+		in.Check = func(ex *schedx.Exec) {
+			for _, p := range w.Panics {
+				ex.Bad("panic", "worker panic: %s", p)
+			}
+			for _, at := range []*kit.Node{x, y, d1, d2} {
+				for _, o := range []*kit.Node{d1, d2} {
+					if at == o {
+						continue
+					}
+					if e, isDst := at.RoutingTable().LookupNearest(o.Identity().IP); e == nil || !isDst {
+						ex.Bad("announcement-not-flooded", "%s holds no exact route to %s after the relay handled the announcements of two origins at the same time and the network drained", at.Name, o.Name)
+					}
+				}
+			}
+		}
+		return in
+	}
+	c := schedx.Conc{Name: "relay handles two announcements at once", Build: build, MaxPoints: 60000}
+	if bubble {
+		c.Wrap = func(f func()) { synctest.Test(t, func(t *testing.T) { f() }) }
+	} else {
+		c.Wrap = func(f func()) {
+			t.Run("bubble", func(t *testing.T) { synctest.Test(t, func(t *testing.T) { f() }) })
+		}
+	}
+	return c
+}
+
 func schedConcs(t *testing.T, bubble bool) []schedx.Conc {
 	return []schedx.Conc{
+		relayConc(t, bubble),
 		schedx.Flap(t, "link replaced: close(old) | register(new)", pool[:3], false, bubble, reachJudge),
 		schedx.Flap(t, "link replaced: close(old) | register(new) | reader", pool[:3], true, bubble, reachJudge),
 		cleanerConc(t, bubble),
